@@ -505,4 +505,22 @@ def shapeClause (d : Draft) (sub : Json → Bool) : Str × Json → Bool := fun 
      | _ => false)
   else true
 
+/-! ### the side conditions of C01 on one schema member (`numSafe`, `typesKnown` read locally) -/
+
+/-- what `numSafe` says about one member -/
+def nsMember (k : Str) (v : Json) : Bool :=
+  if k = ks "multipleOf" ∨ k = ks "divisibleBy" then
+    (match v with | .num (.int m) => decide (0 < m ∧ m ≤ 2 ^ 53) | _ => false)
+  else true
+
+/-- what `typesKnown` says about one member -/
+def tkMember (d : Draft) (k : Str) (v : Json) : Bool :=
+  if k = ks "type" ∨ k = ks "disallow" then
+    (match v with
+     | .str t => (typeNames d).contains t
+     | .arr ts => ts.all (fun t => match t with | .str t => (typeNames d).contains t | _ => true)
+     | _ => true)
+  else true
+
+
 end JS.Spec
